@@ -703,6 +703,11 @@ def check_skeletons(ctx):
                   ('validateH5ad', 'exc'),
                   ('findMarkers', 'norm'), ('findMarkers', 'ret'),
                   ('typeAssignment', 'norm'), ('typeAssignment', 'ret')]
+    for f in ('findMarkersFromPMask', 'createPValueMask', 'amalgamateH5ad',
+              'pivotCsrH5ad', 'transposeByWayOfDisk', 'transposeOnDiskV2'):
+        want_empty += [(f, 'norm'), (f, 'ret'), (f, 'exc')]
+    for f in ('addSparseByGene', 'roundXToIntegers'):
+        want_empty += [(f, 'norm'), (f, 'ret')]
     bad = [(f, e, sk[f][e]) for f, e in want_empty if sk[f][e]]
     return bad
 
